@@ -122,7 +122,7 @@ static void hc_install(int per_op_seconds) {
 
 /* ------------------------------------------------------------------ script */
 
-#define HC_MAXW 4096
+#define HC_MAXW 65536
 static char* hc_w[HC_MAXW];
 static int   hc_nw;
 static char* hc_linebuf = NULL;
